@@ -27,6 +27,20 @@ class StrSub(str):
     wherever a str is."""
 
 
+class LoudStr(str):
+    """A str subclass whose OWN rendering differs from its text (what a legacy `class Host(str, Enum)` member does in
+    f-strings): the library must use the characters, never str()/format() of the caller's object."""
+
+    def __str__(self):
+        return "<LoudStr.__str__>"
+
+    def __format__(self, spec):
+        return "<LoudStr.__format__>"
+
+    def __repr__(self):
+        return "<LoudStr %s>" % str.__repr__(self)
+
+
 def enc_arg(x):
     """Python value -> JSON-able spec."""
     from multidict import MultiDict
